@@ -9,6 +9,7 @@ import PyYetiVerif.Props.C16Tree
 import PyYetiVerif.Props.C16Heap
 import PyYetiVerif.Props.C16Labels
 import PyYetiVerif.Props.C16Split
+import PyYetiVerif.Props.C16LabelsNest
 #print axioms PyYetiVerif.C16.ext_is_fold_max
 #print axioms PyYetiVerif.C16.spec_determines_result
 #print axioms PyYetiVerif.C16.ext_values_order_independent
@@ -76,3 +77,4 @@ import PyYetiVerif.Props.C16Split
 #print axioms PyYetiVerif.C16.split_pairs_cases_with_columns
 #print axioms PyYetiVerif.C16.uf_reds_none_entries_counterexample
 #print axioms PyYetiVerif.C16.uf_reds_none_entries_documented_partial
+#print axioms PyYetiVerif.C16.form_extreme_nested_by_label_values
